@@ -573,9 +573,24 @@ class ProductSpace(LinearSpace):
 
     def _lincomb(self, a, x, b, y, out):
         """Linear combination ``out = a*x + b*y``."""
-        for space, xp, yp, outp in zip(self.spaces, x.parts, y.parts,
+        xparts = self._parts_safe_for(x, out)
+        yparts = self._parts_safe_for(y, out)
+        for space, xp, yp, outp in zip(self.spaces, xparts, yparts,
                                        out.parts):
             space._lincomb(a, xp, b, yp, outp)
+
+    @staticmethod
+    def _parts_safe_for(x, out):
+        """Return the parts of ``x``, copied if ``out`` would clobber them.
+
+        A part of ``out`` can be a part of ``x`` at another position, e.g.,
+        in ``p += p[::-1]``. It must be read before it is overwritten.
+        """
+        out_pos = {id(outp): i for i, outp in enumerate(out.parts)}
+        if any(out_pos.get(id(xp), i) != i for i, xp in enumerate(x.parts)):
+            return [xp.copy() for xp in x.parts]
+        else:
+            return x.parts
 
     def _dist(self, x1, x2):
         """Distance between two elements."""
@@ -591,13 +606,17 @@ class ProductSpace(LinearSpace):
 
     def _multiply(self, x1, x2, out):
         """Product ``out = x1 * x2``."""
-        for spc, xp, yp, outp in zip(self.spaces, x1.parts, x2.parts,
+        x1parts = self._parts_safe_for(x1, out)
+        x2parts = self._parts_safe_for(x2, out)
+        for spc, xp, yp, outp in zip(self.spaces, x1parts, x2parts,
                                      out.parts):
             spc._multiply(xp, yp, outp)
 
     def _divide(self, x1, x2, out):
         """Quotient ``out = x1 / x2``."""
-        for spc, xp, yp, outp in zip(self.spaces, x1.parts, x2.parts,
+        x1parts = self._parts_safe_for(x1, out)
+        x2parts = self._parts_safe_for(x2, out)
+        for spc, xp, yp, outp in zip(self.spaces, x1parts, x2parts,
                                      out.parts):
             spc._divide(xp, yp, outp)
 
